@@ -649,7 +649,10 @@ fn translate_block(
                 | capstone::mips_insn::MIPS_INS_BLTZAL
                 | capstone::mips_insn::MIPS_INS_JAL
                 | capstone::mips_insn::MIPS_INS_JALR => {
-                    block_graphs.push((instruction.address, nop_graph(instruction.address)?));
+                    block_graphs.push((
+                        instruction.address,
+                        semantics::before_delay_slot(&instruction)?,
+                    ));
                     branch_delay = TranslateBranchDelay::BranchFallThrough;
                 }
                 capstone::mips_insn::MIPS_INS_JR => {
